@@ -558,15 +558,24 @@ var (
 	VerifLock  func(mu any, write bool, site int) bool
 	// VerifSelect may perform the select itself (handled=true).
 	VerifSelect func(site int, cases []reflect.SelectCase) (chosen int, recv reflect.Value, recvOK bool, handled bool)
+	// VerifSelected is told which case a select completed with (probe).
+	VerifSelected func(site int, cases []reflect.SelectCase, chosen int)
 )
 
 func verifSelect(site int, cases []reflect.SelectCase) (int, reflect.Value, bool) {
 	if VerifSelect != nil {
 		if c, v, ok, handled := VerifSelect(site, cases); handled {
+			if VerifSelected != nil {
+				VerifSelected(site, cases, c)
+			}
 			return c, v, ok
 		}
 	}
-	return reflect.Select(cases)
+	c, v, ok := reflect.Select(cases)
+	if VerifSelected != nil {
+		VerifSelected(site, cases, c)
+	}
+	return c, v, ok
 }
 
 func verifStep(site int) {
